@@ -971,6 +971,46 @@ class Engine:
             r = m(self, st, fr, fn, args, t)
             if r is not None:
                 return self.apply_results(st, fr, r, dest, target, site, fn)
+        # 1b. a call through Fn / FnMut / FnOnce whose callee value is known: a closure literal is inlined like a direct
+        #     closure call, a fn item becomes a direct call of that function (a generic helper given `Timeline::delay`
+        #     or `|a, b| ..` behaves as if it had been written with them)
+        if fn.get("trait", "").startswith("core::ops::function::Fn") and fn["name"] in ("call", "call_mut", "call_once") \
+                and "resolved" not in fn and args:
+            callee = args[0]
+            k = 0
+            while isinstance(callee, tuple) and callee and callee[0] == "ref" and k < 3:
+                callee = self.read_loc(st, callee[1], callee[2])
+                k += 1
+            tup = args[1] if len(args) > 1 else ("agg", "tuple", None, None, ())
+            if isinstance(callee, tuple) and callee and callee[0] == "agg" and callee[1] == "closure":
+                cb = self.facts.bodies.get(callee[2])
+                if cb is not None and fr.depth < self.max_depth and self.inline_pred(fn, cb) and \
+                        (self.inline_loops or not self.loops(cb)):
+                    self.stats["inlined"].add(cb["path"])
+                    nf = self.push_frame(st, cb, dest, target, fr.depth + 1, site)
+                    self.bind_args(st, nf, cb, [callee, tup], closure_call=True)
+                    st.events.append({"kind": "enter", "callee": cb["path"], "fn": fn, "args": args, "site": site,
+                                      "seq": st.seq, "depth": fr.depth + 1})
+                    st.seq += 1
+                    return "continue"
+            if isinstance(callee, tuple) and callee and callee[0] == "fn" and tup[0] == "agg":
+                fargs = [v for _, v in tup[4]]
+                fb = self.facts.bodies.get(callee[1])
+                name = callee[2].rsplit("::", 1)[-1]
+                f2 = {"id": callee[1], "path": callee[2], "name": name, "krate": callee[2].split("::")[0], "substs": []}
+                tr = callee[2].rsplit("::", 1)[0]
+                if fb is None and tr in self.facts.traits_by_path():
+                    f2["trait"] = tr
+                if fb is not None and fr.depth < self.max_depth and self.inline_pred(f2, fb) and \
+                        (self.inline_loops or not self.loops(fb)):
+                    self.stats["inlined"].add(fb["path"])
+                    nf = self.push_frame(st, fb, dest, target, fr.depth + 1, site)
+                    self.bind_args(st, nf, fb, fargs, closure_call=False)
+                    st.events.append({"kind": "enter", "callee": fb["path"], "fn": f2, "args": fargs, "site": site,
+                                      "seq": st.seq, "depth": fr.depth + 1})
+                    st.seq += 1
+                    return "continue"
+                return self.opaque_call(st, fr, f2, fargs, dest, target, site)
         # 2. inlining (trait-method calls left unresolved in polymorphic MIR are devirtualised when the receiver
         #    is an aggregate of a known type with exactly one impl of that trait method)
         body = self.facts.bodies.get(rid)
@@ -1409,6 +1449,22 @@ def m_vec_extend(eng, st, fr, fn, args, t):
     return out
 
 
+def m_vec_from_box(eng, st, fr, fn, args, t):
+    """`vec![a, b, ..]`: the array written into a fresh `Box::new_uninit()` and turned into a Vec.  The result is the pure
+    term vec-literal(array) - order and number of elements are those of the array."""
+    b = args[0]
+    core_ = next((x for x in subterms(b) if isinstance(x, tuple) and x and x[0] == "call" and x[1].endswith("::new_uninit")), None)
+    if core_ is None:
+        return None
+    found = []
+    for cell, val in st.store.items():
+        if cell[0] == "M" and contains(cell[1], core_):
+            found += [x for x in subterms(val) if isinstance(x, tuple) and x and x[0] == "agg" and x[1] == "array"]
+    if len(found) != 1:
+        return None
+    return _ret(st, ("call", "vec-literal", (found[0],)))
+
+
 def m_checked_sub(eng, st, fr, fn, args, t):
     """unsigned a.checked_sub(b): None when a < b, else Some(a - b)"""
     ty = None
@@ -1667,6 +1723,7 @@ DEFAULT_MODELS = {
     "core::option::Option::<T>::map_or": m_opt_map_or,
     "core::result::Result::<T, E>::unwrap_or_else": m_res_unwrap_or_else,
     "<alloc::vec::Vec<T, A> as core::iter::traits::collect::Extend<T>>::extend": m_vec_extend,
+    "alloc::boxed::box_assume_init_into_vec_unsafe": m_vec_from_box,
     "core::num::<impl usize>::checked_sub": m_checked_sub,
     "core::num::<impl u32>::checked_sub": m_checked_sub,
     "core::num::<impl u64>::checked_sub": m_checked_sub,
